@@ -116,6 +116,10 @@ func writerBatches(kind string) []sl.Op {
 		return []sl.Op{{Name: "upd2(vector,rev)", Kind: "upd", Ids: []int{2}, Docs: []sl.Doc{{prop: []float32{0.5, 0.5}, "rev": int64(1)}}}}
 	case "del1":
 		return []sl.Op{{Name: "del3", Kind: "del", Ids: []int{3}}}
+	case "ins2-storage-fault":
+		// an insert that meets a storage error when the counters are written,
+		// i.e. after the index pipeline has applied the batch to the shared cache
+		return []sl.Op{{Name: "ins57,58 !storage-fault", Kind: "ins", Ids: []int{57, 58}, Docs: []sl.Doc{doc(57), doc(58)}}}
 	case "del-ins":
 		return []sl.Op{{Name: "del3", Kind: "del", Ids: []int{3}}, {Name: "ins59(reuses node id)", Kind: "ins", Ids: []int{59}, Docs: []sl.Doc{doc(59)}}}
 	}
@@ -209,8 +213,12 @@ func run(raw json.RawMessage, prefix []string) (*vsched.Trace, []schedlib.V, str
 			case faultx.KBegin, faultx.KReturn:
 				vsched.Point("write-tx " + pt.Kind)
 			case faultx.KEnd:
-				commits++
-				vsched.Point("write-tx committed")
+				if pt.Failed {
+					vsched.Point("write-tx rolled back")
+				} else {
+					commits++
+					vsched.Point("write-tx committed")
+				}
 			}
 			return
 		}
@@ -241,7 +249,12 @@ func run(raw json.RawMessage, prefix []string) (*vsched.Trace, []schedlib.V, str
 					if i := strings.LastIndex(msg, ": "); i >= 0 {
 						msg = msg[i+2:]
 					}
-					fail("search-failed-spuriously:"+msg, "%s (%s) running concurrently failed: %v", name, kind, err)
+					if msg == "point does not exist" && to == from {
+						// the known mechanism needs a commit between the search's
+						// snapshot and its cache access; without one it is something else
+						msg += ":no-commit-during-the-search"
+					}
+					fail("search-failed-spuriously:"+msg, "%s (%s) running concurrently failed: %v (commits finished before / after the search: %d / %d)", name, kind, err, from, to)
 					outcome = append(outcome, name+":error")
 					return
 				}
@@ -282,6 +295,16 @@ func run(raw json.RawMessage, prefix []string) (*vsched.Trace, []schedlib.V, str
 				in := &sl.Inst{Shard: s}
 				for _, op := range batches {
 					vsched.Point("write-begin " + op.Name)
+					if strings.HasSuffix(op.Name, "!storage-fault") {
+						proxy.Arm(&faultx.Fault{Bucket: "internal", Kind: faultx.KPut, Ordinal: 1, Action: "fail"}, "")
+						got := in.ApplyImpl(op)
+						fired := proxy.Fired()
+						proxy.Arm(nil, "")
+						if fired && got.Err == nil {
+							fail("writer:storage-error-swallowed", "%s met an injected storage error but reported success", op.Name)
+						}
+						continue // nothing was committed: the model and the committed states stay as they are
+					}
 					exp := model.Apply(op)
 					// the state this batch commits, recorded before it can become visible
 					states = append(states, snap())
@@ -367,7 +390,7 @@ func siteClass(site string) string {
 }
 
 func master(cfg *harness.Config, rep *harness.Report) {
-	rep.Rule = "programs: searcher sets from {graph search, graph search with _id pre-filter, text, string filter} (2 searchers; thorough 3) x writer {none, insert 2, update a vector, delete 1, delete then insert with node-id reuse} x cache state {cold, partially warm, warm}; all interleavings with at most `bound` preemptions at the scheduling points named in the header. Oracle: no storage use after a transaction ended, no failed search, every returned (id, document) is in a committed state that existed during the search, after the run point store + graph = sequential model in commit order and warm answers = cold answers"
+	rep.Rule = "programs: searcher sets from {graph search, graph search with _id pre-filter, text, string filter} (2 searchers; thorough 3) x writer {none, insert 2, update a vector, delete 1, delete then insert with node-id reuse, insert 2 meeting a storage error after the index work} x cache state {cold, partially warm, warm}; all interleavings with at most `bound` preemptions at the scheduling points named in the header. Oracle: no storage use after a transaction ended, no failed search, every returned (id, document) is in a committed state that existed during the search, after the run point store + graph = sequential model in commit order and warm answers = cold answers"
 	rep.Assumptions = []string{"the writer's own storage operations are not scheduling points (bbolt hides uncommitted pages from readers; readers and the writer interact through the cache locks, the commit instant and the cache contents)", "one cached index in the schema so that the writer's cache operations come from one goroutine", "map-iteration order inside the code under test is not enumerated"}
 	p := pool.New(pool.Options{CPUsPerWorker: 2, JobTimeout: 300 * time.Second})
 	if cfg.Replay != "" {
@@ -405,9 +428,10 @@ func master(cfg *harness.Config, rep *harness.Report) {
 		return out
 	}
 	sets := [][]string{{"vamana-small", "vamana"}, {"vamana", "vamana-filter"}, {"vamana-filter", "text"}}
-	allW := []string{"none", "ins2", "updvec", "del1", "del-ins"}
+	allW := []string{"none", "ins2", "updvec", "del1", "del-ins", "ins2-storage-fault"}
 	programs := mk([]string{"cold", "partial", "warm"}, allW, sets, 8)
 	core := mk([]string{"cold", "warm"}, []string{"none", "del-ins"}, sets[:2], 8)
+	core = append(core, mk([]string{"warm"}, []string{"ins2-storage-fault"}, sets[1:2], 8)...)
 	coreAll := mk([]string{"cold", "warm"}, []string{"none", "updvec", "del-ins"}, sets, 8)
 	type phase struct {
 		name     string
